@@ -587,18 +587,32 @@ func genMinterUpd(g *Gen, n int) {
 			// directed shape: an otherwise valid update whose only flaw is one boundary value of the
 			// current exponential period (step duration 0, amount 0), sent by governance, followed by
 			// the inflation query and a block
-			flaw := g.pick("step0", "amount0", "stepneg")
+			flaw := g.pick("step0", "amount0", "stepneg", "dupid", "gap", "endorder")
 			g.emit("m.cfg umint %d", start)
 			a, st := "1000", int64(sec)
+			q := periods[0].seq
 			switch flaw {
 			case "step0":
 				st = 0
 			case "amount0":
 				a = "0"
-			default:
+			case "stepneg":
 				st = -1
+			case "dupid":
+				// a repeated sequence id in an otherwise well-formed list
+				g.emit("m.period %d %d none", q, start+1000*sec)
+				g.emit("m.period %d %d lin 5", q, start+2000*sec)
+				q++
+			case "gap":
+				g.emit("m.period %d %d none", q, start+1000*sec)
+				q += 2
+			default:
+				// end times not increasing
+				g.emit("m.period %d %d none", q, start+2000*sec)
+				g.emit("m.period %d %d lin 5", q+1, start+1000*sec)
+				q += 2
 			}
-			g.emit("m.period %d - exp %s %d 500000000000000000", periods[0].seq, a, st)
+			g.emit("m.period %d - exp %s %d 500000000000000000", q, a, st)
 			g.emit("m.update %s gov", g.pick("full", "minters"))
 			g.emit("m.params")
 			g.emit("m.fund 1000000")
